@@ -4,7 +4,7 @@
    directives of our own. *)
 Require Extraction.
 Require Import ExtrOcamlBasic.
-Require Import NX.Base.Prelude NX.Model.PQ NX.Model.Sink NX.Model.IPQ NX.Model.Sim NX.Model.Queue NX.Model.SeqLock NX.Model.TaskSM NX.Model.TaskInv NX.Model.TaskTrace NX.Model.CachedRw NX.Model.WMem NX.Model.QueueConc NX.Model.Broadcast NX.Model.TaskSetConc NX.Model.Pool NX.gen.PoolProg NX.Model.Injector NX.Model.Chan NX.gen.ChanProg NX.Model.StRun NX.gen.StRunProg NX.Model.Slot NX.gen.SlotProg NX.Model.Conf.
+Require Import NX.Base.Prelude NX.Model.PQ NX.Model.Sink NX.Model.IPQ NX.Model.Sim NX.Model.Queue NX.Model.SeqLock NX.Model.TaskSM NX.Model.TaskInv NX.Model.TaskTrace NX.Model.CachedRw NX.Model.WMem NX.Model.QueueConc NX.Model.Broadcast NX.Model.TaskSetConc NX.Model.Pool NX.gen.PoolProg NX.Model.Injector NX.Model.Chan NX.gen.ChanProg NX.Model.StRun NX.gen.StRunProg NX.Model.Slot NX.gen.SlotProg NX.Model.Conf NX.Model.SeqFut NX.gen.SeqFutProg.
 Extraction Language OCaml.
 Set Extraction KeepSingleton.
 
@@ -45,4 +45,4 @@ Definition x_c_senders (s : cstate) : list (nat * (bool * bool)) :=
 Definition x_c_recv (s : cstate) : nat :=
   match rpc_ s with RCheck1 => 0 | RReg => 1 | RCheck2 => 2 | RSleep => 3 | RGot _ => 4 | RHandle => 5 end.
 
-Extraction "../ocaml/gen/nxmodel.ml" x_pq_run x_ebuf_run x_eslot_run x_ipq_run sim_exec x_q_run x_sl_run x_ts_check x_crw_run x_ts_trace wm_init wm_step wm_run wm_outputs cq_init cq_step x_cq_closed x_cq_log b_init b_run tk_init tk_step p_init p_step p_bad barrier_gen barrier_fixed barrier_pinned x_p_msg x_p_net x_p_inj x_p_panic x_p_main x_p_cnts x_p_acts inj_new inj_run c_init c_step c_bad chan_gen chan_fixed x_c_occ x_c_cap x_c_avail x_c_senders x_c_recv sr_check strun_gen os_init os_step os_ok slot_gen conf_case pool_exec bench_react bench_plain.
+Extraction "../ocaml/gen/nxmodel.ml" x_pq_run x_ebuf_run x_eslot_run x_ipq_run sim_exec x_q_run x_sl_run x_ts_check x_crw_run x_ts_trace wm_init wm_step wm_run wm_outputs cq_init cq_step x_cq_closed x_cq_log b_init b_run tk_init tk_step p_init p_step p_bad barrier_gen barrier_fixed barrier_pinned x_p_msg x_p_net x_p_inj x_p_panic x_p_main x_p_cnts x_p_acts inj_new inj_run c_init c_step c_bad chan_gen chan_fixed x_c_occ x_c_cap x_c_avail x_c_senders x_c_recv sr_check strun_gen os_init os_step os_ok slot_gen conf_case pool_exec bench_react bench_plain sq_polls sq_check sq_init sum_list seqfut_gen.
